@@ -230,7 +230,7 @@ def bounds(tier, seed):
         "duration_steps": sorted({c[1] for c in _dur_lattice(tier, seed)}),
         "fractional_duration_cases": len(_frac_dur_lattice(tier, seed)),
         "fractional_duration_steps": sorted({c[1] for c in _frac_dur_lattice(tier, seed)}),
-        "fractional_duration_D": "k*step - f, f in %s; k*step + f, f in %s; 1 day + step - 0.36 (step >= 300)" % (FRAC_BELOW, FRAC_ABOVE),
+        "fractional_duration_D": "k*step - f, f in %s; k*step + f, f in %s; 1 day + step - 0.36 (step >= 450, one start instant per step in the quick tier)" % (FRAC_BELOW, FRAC_ABOVE),
         "fractional_duration_starts": sorted({c[0].isoformat() for c in _frac_dur_lattice(tier, seed)}),
         "entry_point_cases": len(_entry_lattice(tier, seed)),
         "entry_point_steps": sorted({c[1] for c in _entry_lattice(tier, seed)}),
